@@ -12,7 +12,8 @@ W=/tmp/sw/$NAME; OUT=/tmp/sw/$NAME.out
 rm -rf "$W" "$OUT"; mkdir -p /tmp/sw "$OUT"
 git -C /repo worktree add --detach "$W" HEAD >/dev/null 2>&1 || { echo "RESULT $NAME worktree-failed"; exit 2; }
 cleanup() { git -C /repo worktree remove --force "$W" >/dev/null 2>&1; rm -rf "$OUT"; }
-DEMODIR=$(python3 -c "import json,sys;print(json.load(open('$SD/meta.json')).get('demo_dir','cty').strip('/'))")
+META="$SD/meta.json"; [ -f "$SD/agent_meta.json" ] && META="$SD/agent_meta.json"
+DEMODIR=$(python3 -c "import json,sys;print(json.load(open('$META')).get('demo_dir','cty').strip('/'))")
 TESTNAME=$(grep -o 'func TestSeeded[A-Za-z0-9_]*' "$SD/demo_test.go" | head -1 | sed 's/func //')
 cd "$W"
 # demo on the unpatched tree
